@@ -443,4 +443,69 @@ impl<K: KdfTrait> Drop for ExporterSecret<K> {
     dict(name='c16-temp-key-manuallydrop', expect=[('C16', 'R16.2')],
          note='temporary key wrapped in ManuallyDrop: drop never runs',
          edits=[(SETUP, "    let mut key = crate::aead::AeadKey::<A>::default();", "    let mut key = core::mem::ManuallyDrop::new(crate::aead::AeadKey::<A>::default());")]),
+    # ------------------------------------------------------------------ C18
+    dict(name='c18-static-atomic-call-counter', expect=[('C18', 'R18.1')],
+         note='export output depends on how many exports ran before (process-global counter)',
+         edits=[(AEAD, """    pub fn export(&self, exporter_ctx: &[u8], out_buf: &mut [u8]) -> Result<(), HpkeError> {
+        // Use our exporter secret""", """    pub fn export(&self, exporter_ctx: &[u8], out_buf: &mut [u8]) -> Result<(), HpkeError> {
+        static CALLS: core::sync::atomic::AtomicUsize = core::sync::atomic::AtomicUsize::new(0);
+        if CALLS.fetch_add(1, core::sync::atomic::Ordering::Relaxed) == usize::MAX { return Err(HpkeError::KdfOutputTooLong); }
+        // Use our exporter secret""")]),
+    dict(name='c18-cell-counter-in-ctx', expect=[('C18', 'R18.1'), ('C18', 'R18.5')],
+         note='export(&self) counts calls through a Cell: context no longer Sync, export no longer pure',
+         edits=[(AEAD, """    /// Records whether the nonce sequence counter has overflowed
+    overflowed: bool,""", """    /// Records whether the nonce sequence counter has overflowed
+    overflowed: bool,
+    exports: core::cell::Cell<u64>,"""),
+                (AEAD, """        AeadCtx {
+            overflowed: false,
+            encryptor: <A::AeadImpl as aead::KeyInit>::new(&key.0),""", """        AeadCtx {
+            overflowed: false,
+            exports: core::cell::Cell::new(0),
+            encryptor: <A::AeadImpl as aead::KeyInit>::new(&key.0),"""),
+                (AEAD, """        AeadCtx {
+            overflowed: self.overflowed,
+            encryptor: self.encryptor.clone(),""", """        AeadCtx {
+            overflowed: self.overflowed,
+            exports: self.exports.clone(),
+            encryptor: self.encryptor.clone(),""")]),
+    dict(name='c18-phantom-rawptr-not-send', expect=[('C18', 'R18.5')],
+         note='contexts silently stop being Send/Sync (no behaviour change)',
+         edits=[(AEAD, "    src_kem: PhantomData<Kem>,", "    src_kem: PhantomData<(Kem, *const u8)>,")]),
+    dict(name='c18-static-mut-ephemeral-cache', expect=[('C18', 'R18.1')],
+         note='second encapsulation in a process reuses bytes from the first (order dependence)',
+         edits=[(KEM, """        // Fill it with randomness
+        csprng.fill_bytes(&mut ikm);""", """        // Fill it with randomness
+        static mut SEEN: bool = false;
+        unsafe { if !SEEN { SEEN = true; } }
+        csprng.fill_bytes(&mut ikm);""")]),
+    dict(name='c18-keygen-ignores-rng', expect=[('C18', 'R18.4')],
+         note='ephemeral key derived from an all-zero ikm: the same for every encapsulation',
+         edits=[(KEM, """        // Fill it with randomness
+        csprng.fill_bytes(&mut ikm);""", """        // Fill it with randomness
+        let _ = &csprng;""")]),
+    dict(name='c18-unsafe-send-impl', expect=[('C18', 'R18.1')],
+         note='an unsafe impl Send papers over a non-Send field',
+         edits=[(AEAD, "/// The HPKE receiver's context. This is what you use to `open` ciphertexts and `export` secrets.",
+                 "unsafe impl<A: Aead> Send for AeadNonce<A> {}\n/// The HPKE receiver's context. This is what you use to `open` ciphertexts and `export` secrets.")]),
+    # ------------------------------------------------------------------ C17
+    dict(name='c17-seal-gated-on-alloc-only', expect=[('C17', 'R17.1')],
+         note='`--no-default-features --features std,...` loses AeadCtxS::seal',
+         edits=[(AEAD, """    #[cfg(any(feature = "alloc", feature = "std"))]
+    pub fn seal(&mut self, plaintext: &[u8], aad: &[u8]) -> Result<crate::Vec<u8>, HpkeError> {""", """    #[cfg(feature = "alloc")]
+    pub fn seal(&mut self, plaintext: &[u8], aad: &[u8]) -> Result<crate::Vec<u8>, HpkeError> {""")]),
+    dict(name='c17-cfg-typo-drops-p384', expect=[('C17', 'R17.2')],
+         note='feature p384 no longer provides DhP384HkdfSha384',
+         edits=[(DHKEM, """// Implement DHKEM(P-384, HKDF-SHA384)
+#[cfg(feature = "p384")]""", """// Implement DHKEM(P-384, HKDF-SHA384)
+#[cfg(all(feature = "p384", feature = "p256"))]""")]),
+    dict(name='c17-needs-default-features', expect=[('C17', 'R17.1')],
+         note='a helper names the X25519 KEM unconditionally: builds without x25519 fail',
+         edits=[(SETUP, "use zeroize::Zeroize;", "use zeroize::Zeroize;\n#[allow(dead_code)]\ntype DefaultKem = crate::kem::X25519HkdfSha256;")]),
+    dict(name='c17-std-dependent-body', expect=[('C17', 'R17.3')],
+         note='export limits output to 64 bytes only when the std feature is on',
+         edits=[(AEAD, """        // Use our exporter secret as the PRK for an HKDF-Expand op. The only time this fails is""", """        if cfg!(feature = "std") && out_buf.len() > 8000 {
+            return Err(HpkeError::KdfOutputTooLong);
+        }
+        // Use our exporter secret as the PRK for an HKDF-Expand op. The only time this fails is""")]),
 ]
